@@ -80,10 +80,11 @@ ob("enc_rl_max_repeat", ["C05"], "enc.rs", unwind=131, unwindset=[(r"^enc::run_l
    functions=["enc::run_length_decode"], bound="length byte 129 (128 copies), all data bytes")
 ob("enc_rl_max_literal", ["C05"], "enc.rs", unwind=131, unwindset=[(r"^enc::run_length_decode$", 0, 3)], tier="infeasible", cuts=X1_ERR, stubs=[FMT_STUB], timeout=900,
    functions=["enc::run_length_decode"], bound="length byte 127 (128 literal bytes), symbolic first/last data byte")
-for h, t in [("enc_flate_p12_c1_b8_w2", "quick"), ("enc_flate_p15_c1_b8_w3", "quick"), ("enc_flate_p15_c3_b8_w1", "quick"),
-             ("enc_flate_p11_c2_b8_w2", "thorough"), ("enc_flate_p10_c1_b8_w2", "quick"), ("enc_flate_p15_c1_b4_w4", "quick"),
+# quick keeps three geometries (8-bit Up, 3 colours x 4 bits Sub, predictor 1); the vp check stops a quick command at 900 s
+for h, t in [("enc_flate_p12_c1_b8_w2", "quick"), ("enc_flate_p15_c1_b8_w3", "thorough"), ("enc_flate_p15_c3_b8_w1", "thorough"),
+             ("enc_flate_p11_c2_b8_w2", "thorough"), ("enc_flate_p10_c1_b8_w2", "thorough"), ("enc_flate_p15_c1_b4_w4", "thorough"),
              ("enc_flate_p15_c1_b16_w1", "thorough"), ("enc_flate_p14_c3_b8_w2_r3", "infeasible"), ("enc_flate_p1", "quick"),
-             ("enc_flate_p11_c3_b4_w2", "quick"), ("enc_flate_p14_c3_b4_w2", "thorough"), ("enc_flate_p13_c1_b8_w1_r3", "quick")]:
+             ("enc_flate_p11_c3_b4_w2", "quick"), ("enc_flate_p14_c3_b4_w2", "thorough"), ("enc_flate_p13_c1_b8_w1_r3", "thorough")]:
     ob(h, ["C05", "C14"], "enc.rs", unwind=12 if "r3" not in h else 24, cuts=X1_ERR, stubs=[FMT_STUB], timeout=2400,
        mem_gb=12 if "r3" not in h else 28, tier=t,
        functions=["enc::flate_decode", "enc::inflate_bytes_zlib", "enc::inflate_bytes", "enc::unfilter",
@@ -177,7 +178,11 @@ for l in (2, 3, 4, 5):
        bound="one next_lexeme() call from EVERY lexer state (position <= %d, nesting depth 0..999) on every %d-byte buffer: "
              "produced byte / end-of-string, consumed length and nesting depth vs the reference step (inductive step of the "
              "literal-string decoder)" % (l, l))
-ob("strlex_lit_step_cont_l3", ["C03"], "strlex.rs", unwind=5, cuts=X1_ERR, stubs=[FMT_STUB], tier="quick", timeout=2400, mem_gb=16,
+ob("strlex_lit_step_cont0_l3", ["C03"], "strlex.rs", unwind=5, cuts=X1_ERR, stubs=[FMT_STUB], tier="quick", timeout=1500, mem_gb=16,
+   unwindset=[(r"StringLexer::<'_>::next_lexeme$", None, 2), (r"verif_h_strlex::lit_step_ref::<", 0, 5)], functions=SLFN,
+   bound="one next_lexeme() call at position 0 of a 3-byte buffer that starts with a line continuation (backslash + CR / LF / CRLF), "
+         "every nesting depth")
+ob("strlex_lit_step_cont_l3", ["C03"], "strlex.rs", unwind=5, cuts=X1_ERR, stubs=[FMT_STUB], tier="thorough", timeout=2400, mem_gb=16,
    unwindset=[(r"StringLexer::<'_>::next_lexeme$", None, 2), (r"verif_h_strlex::lit_step_ref::<", 0, 5)], functions=SLFN,
    bound="one next_lexeme() call that starts at a line continuation (backslash + CR / LF / CRLF) in a 3-byte buffer")
 ob("strlex_lit_step_cont_l4", ["C03"], "strlex.rs", unwind=5, cuts=X1_ERR, stubs=[FMT_STUB], tier="thorough", timeout=2400, mem_gb=16,
@@ -187,7 +192,7 @@ ob("strlex_lit_step_cont_l4", ["C03"], "strlex.rs", unwind=5, cuts=X1_ERR, stubs
 HLFN = ["parser::lexer::str::HexStringLexer::next_hex_byte", "parser::lexer::str::HexStringLexer::next_non_whitespace_char"]
 for l in (1, 2, 3, 4):
     ob("strlex_hex_l%d" % l, ["C03", "C01"], "strlex.rs", unwind=l + 3, cuts=X1_ERR, stubs=[FMT_STUB],
-       tier="quick" if l <= 3 else "thorough", timeout=2400, mem_gb=12, functions=HLFN,
+       tier="quick" if l <= 2 else "thorough", timeout=2400, mem_gb=12, functions=HLFN,
        bound="all %d-byte texts after '<'" % l)
 
 # ---------------------------------------------------------------------------------------------------------------------
